@@ -155,7 +155,7 @@ def run(ctx):
         xa = np.asarray(x, dtype=float)
         got = [np.atleast_1d(np.asarray(s, dtype=float)) for s in g(xa, m, n, o)]
         # inputs of the model: base = base_step*step_nom (after make_exact), ratio (after make_exact), count, offset
-        g._state = sg._STATE(xa, m, n, o)
+        g._state = type(g._state)(xa, m, n, o)
         base = np.atleast_1d(np.asarray(g.base_step * g.step_nom, dtype=float))
         ratio = g.step_ratio
         if g.use_exact_steps:
